@@ -208,6 +208,23 @@ def infeasible_items(tier):
             add(f"alt two-compete alap={alap} scen={bool(scen)}", {**base, "resources": [{"id": "rp"}, {"id": "rb"}, {"id": "r1"}],
                                                                    "tasks": [{"id": "a", "effort": 60, "alloc": ["rp"], "alt": ["rb"], "end": "2025-01-10-17:00"} if alap else {"id": "a", "effort": 60, "alloc": ["rp"], "alt": ["rb"]},
                                                                              {"id": "c", "effort": 60, "alloc": ["rp"], "alt": ["rb"], "end": "2025-01-10-17:00"} if alap else {"id": "c", "effort": 6000, "alloc": ["rp"], "alt": ["rb"]}, T("b")]})
+    # every state vector of three candidates (primary, first and second alternative) x short / month-long effort
+    import itertools as _it
+    for kinds in _it.product(("ok", "busy", "never", "slow"), repeat=3):
+        for eff_min in (90, 14400):
+            for alap in (False, True):
+                rs, extra = [], []
+                for i, kd in enumerate(kinds):
+                    r = {"id": f"c{i}"}
+                    if kd == "never":
+                        r["leaves"] = [{"k": "leaves", "type": "annual", "a": "2025-01-01", "b": "2026-01-01"}]
+                    elif kd == "slow":
+                        r["eff"] = 0.3 if eff_min > 90 else 0.01
+                    elif kd == "busy":
+                        extra.append({"id": f"hold{i}", "effort": 2400, "alloc": [f"c{i}"], "prio": 900})
+                    rs.append(r)
+                add(f"alt-vector {kinds} effort={eff_min} alap={alap}",
+                    {"alap": alap, "resources": rs + [{"id": "r1"}], "tasks": extra + [{"id": "a", "effort": eff_min, "alloc": ["c0"], "alt": ["c1", "c2"]}, T("b")]})
     for lv in (("2024-12-09", "2024-12-11"), ("2024-12-30", "2025-01-08"), ("2025-03-01", "2025-03-05"), ("2025-01-20", "2025-03-01"), ("2020-01-01", "2030-01-01")):
         for kind in ("leaves", "vacation", "booking", "pvac", "gleave"):
             for alap in (False, True):
